@@ -88,7 +88,9 @@ func runSeq(c core.Case) core.Outcome {
 				Req: "validate " + core.Hex(s), Exp: exp})
 		}
 		if r.class == "err" {
-			unparseable = true // C02's business (see `edit`)
+			unparseable = true // the tool cannot read what it saved (see `edit`)
+			out.Checks = append(out.Checks, core.Check{Tag: "O", What: "saved-validates", Exp: "parsed and validated without errors",
+				Got: fmt.Sprintf("save %d of %d does not parse: %s", k+1, len(saved), clip(r.detail, 200)), Sig: "saved-unparseable"})
 			continue
 		}
 		ck := noFalseAlarm(r, "saved-validates")
